@@ -138,6 +138,14 @@ def run(ctx):
                     spec_fail.append((dict(kind=kind, y=c["y"], nodata=c["nodata"], out=r["out"], lopt=r.get("lopt")),
                                       "a pixel with %d valid cells (< %d) must be returned unchanged with lambda 0" % (nvalid, need)))
             continue
+        for c, r in ok:
+            sv = r.get("solves") or {}
+            if sv.get("same_as_compiled") and sv.get("max_median_cells", 0) > nvalid:
+                spec_fail.append((dict(kind=kind, params=params, y=c["y"], nodata=c["nodata"], out=r["out"], lopt=r.get("lopt")),
+                                  "missing cells influence the robust weights: %d residuals enter the robust scale (median) of a series with %d valid "
+                                  "cells (observed in the kernel's source run in the interpreter, whose result equals the compiled kernel's)"
+                                  % (sv["max_median_cells"], nvalid)))
+                break
         c0, r0 = ok[0]
         for c, r in ok[1:]:
             dist["pairs_compared"] += 1
